@@ -29,6 +29,15 @@ fn faults_for(kind: u8) -> Vec<Act> {
 
 pub fn scripts(thorough: bool, rng: &mut Rng) -> Vec<Script> {
     let mut v = vec![Script { ce: 'o', se: 'n', rules: vec![] }];
+    // repeated loss of the SAME datagram (the transmission and its retransmissions): the longest first, they run concurrently.
+    // 12 consecutive losses of the ClientHello; a whole flight lost three times (first transmission + both copies of the next
+    // round); the server's final flight lost twice; every datagram kind lost twice.
+    let dn = |fc: bool, k: u8, n: u8| Rule { from_client: fc, typ: k, act: Act::DropN(n) };
+    v.push(Script { ce: 'o', se: 'n', rules: vec![dn(true, 1, 12)] });
+    v.push(Script { ce: 'o', se: 'n', rules: vec![dn(false, 2, 3), dn(false, 11, 3), dn(false, 12, 3), dn(false, 14, 3)] });
+    v.push(Script { ce: 'o', se: 'n', rules: vec![dn(true, 16, 3), dn(true, 200, 3), dn(true, 20, 3)] });
+    v.push(Script { ce: 'o', se: 'n', rules: vec![dn(false, 200, 2), dn(false, 20, 2)] });
+    for (fc, k) in KINDS { v.push(Script { ce: 'o', se: 'n', rules: vec![dn(fc, k, 2)] }); }
     let mut singles = vec![];
     for (fc, k) in KINDS { for a in faults_for(k) { singles.push(Rule { from_client: fc, typ: k, act: a }); } }
     for r in &singles { v.push(Script { ce: 'o', se: 'n', rules: vec![r.clone()] }); }
@@ -43,6 +52,9 @@ pub fn scripts(thorough: bool, rng: &mut Rng) -> Vec<Script> {
     }
     v
 }
+
+/// timer rounds a script gets: 3 after the faults, i.e. 3 + the longest run of losses it contains
+pub fn rounds_for(sc: &Script) -> u32 { 3 + sc.rules.iter().map(|r| match r.act { Act::DropN(n) => n as u32, _ => 0 }).max().unwrap_or(0) }
 
 pub fn run(args: &Args) {
     let rt = tokio::runtime::Builder::new_current_thread().enable_all().build().unwrap();
@@ -66,7 +78,7 @@ pub fn run(args: &Args) {
         }
         if case.trim() == "deadline" { super::c03::deadline::replay(); return; }
         let sc = Script::parse(case);
-        match rt.block_on(run_script_ticks(&sc, ROUNDS)) {
+        match rt.block_on(run_script_ticks(&sc, rounds_for(&sc))) {
             Some(o) => { for (i, l) in o.lines { println!("ops: {i}\nimpl: {l}"); } for t in o.tags { println!("tag {t}"); } for (s, d) in o.fails { println!("ORACLE-FAIL {s} {d}"); } }
             None => println!("inconclusive (timing)"),
         }
@@ -82,7 +94,7 @@ pub fn run(args: &Args) {
         let mut pending: Vec<&Script> = batch.iter().collect();
         for _attempt in 0..3 {
             if pending.is_empty() { break; }
-            let results = rt.block_on(futures::future::join_all(pending.iter().map(|sc| run_script_ticks(sc, ROUNDS))));
+            let results = rt.block_on(futures::future::join_all(pending.iter().map(|sc| run_script_ticks(sc, rounds_for(sc)))));
             let mut again = vec![];
             for (sc, res) in pending.iter().zip(results) {
                 match res {
@@ -97,7 +109,7 @@ pub fn run(args: &Args) {
                         if !both {
                             let what = sc.rules.iter().map(|r| format!("{}:{}:{:?}", if r.from_client { "c>s" } else { "s>c" }, r.typ, r.act)).collect::<Vec<_>>().join("+");
                             let fin = o.tags.iter().find(|t| t.starts_with("final:")).cloned().unwrap_or_default();
-                            run.fail(&format!("conv:not-connected-after-{ROUNDS}-rounds:{}", if sc.rules.len() == 1 { what.replace(['(', ')'], "") } else { "multi-fault".into() }),
+                            run.fail(&format!("conv:not-connected-after-{}-rounds:{}", rounds_for(sc), if sc.rules.len() == 1 { what.replace(['(', ')'], "") } else { "multi-fault".into() }),
                                 &sc.text(), &fin);
                         }
                     }
